@@ -56,6 +56,7 @@ DEFAULT_VAL = {"req": None, "str": "dflt", "int": 3, "none": None, "btrue": True
                "optd": "od", "list": [], "counter": 0}
 VOCAB = ["name", "num", "n", "flag", "force", "quiet", "lst", "cnt", "opt", "a_b", "pos1", "pos2", "v", "verbose",
          "my_list", "x", "log", "fmt", "f", "nn"]
+POSVOCAB = ["env", "region", "tag", "host", "port", "src", "dst", "pos1", "pos2", "x"]
 TASKNAMES = ["t1", "t2", "build", "clean", "deploy"]
 VALUES = ["x", "val", "5", "a=b", "two words", "", "=", "=x", "-x", "--foo", "-", "-5", "v1", "été", "--name", "-zq", "--foo=1",
           "-n", "--", "0", "name", "a-b", "subject\n\nbody", "line1\nline2", "0x1F", "08"]
@@ -622,21 +623,50 @@ def intended_of(tv, seq):
     return want
 
 
+def arrange(tv, items, rng):
+    """a random item order that respects 'a bare value fills the first positional still without a value': the bare
+    values in slot order; a positional given by flag anywhere before the first bare value of a LATER slot (so flags
+    come before, between and after the bare values); everything else anywhere"""
+    slot = dict((p, i) for i, p in enumerate(tv.positional))
+    seq = sorted([it for it in items if it[0] == "P"], key=lambda it: slot[it[2]])
+    posflags = [it for it in items if it[0] in ("S", "E", "G") and it[3] in slot]
+    rest = [it for it in items if it[0] != "P" and it not in posflags]
+    rng.shuffle(posflags)
+    for it in posflags:
+        limit = len(seq)
+        for idx, other in enumerate(seq):
+            if other[0] == "P" and slot[other[2]] > slot[it[3]]:
+                limit = idx
+                break
+        seq.insert(rng.randint(0, limit), it)
+    for it in rest:
+        seq.insert(rng.randint(0, len(seq)), it)
+    return seq
+
+
 def spell_call(tv, name_token, rng, last_call):
     items = []
+    # which of the required parameters are given by flag: ANY subset, chosen as a whole (uniform over the subsets, so
+    # runs of consecutive by-flag positionals at the start, in the middle and at the end are all frequent)
+    by_flag = dict((p, rng.random() < 0.5) for p in tv.positional)
     for p in tv.params:
         opts = param_options(tv, p, rng)
         if tv.kind[p] != "req" and rng.random() < 0.35:
             continue
         pos_opts = [o for o in opts if o[0] and o[0][0][0] == "P"]
-        its, _ = rng.choice(pos_opts) if pos_opts and rng.random() < 0.5 else rng.choice(opts)
+        flag_opts = [o for o in opts if o[0] and o[0][0][0] != "P"]
+        if p in by_flag:
+            pool = (flag_opts if by_flag[p] else pos_opts) or opts
+        else:
+            pool = opts
+        its, _ = rng.choice(pool)
         items += its
     items = merge_blocks(tv, items, rng)
     seq = None
-    for _ in range(12):
-        rng.shuffle(items)
-        if admissible(tv, items, last_call):
-            seq = list(items)
+    for _ in range(8):
+        cand = arrange(tv, items, rng)
+        if admissible(tv, cand, last_call):
+            seq = cand
             break
     if seq is None:
         seq = canonical_order(tv, items, last_call)
@@ -644,6 +674,30 @@ def spell_call(tv, name_token, rng, last_call):
             items = [it for it in items if it[0] != "O"]
             seq = canonical_order(tv, items, True)
     return {"task": name_token, "primary": cli_name(tv.t), "items": [list(it) for it in seq], "intended": intended_of(tv, seq)}
+
+
+def positional_shape(tv, call):
+    """(number of positionals, which of them are given by flag as a 0/1 string in slot order, where the flags stand)"""
+    given = dict()
+    order = []
+    for it in call["items"]:
+        if it[0] == "P":
+            given[it[2]] = "0"
+            order.append("v")
+        elif it[0] in ("S", "E", "G") and it[3] in tv.positional:
+            given[it[3]] = "1"
+            order.append("F")
+    mask = "".join(given.get(p, "?") for p in tv.positional)
+    o = "".join(order)
+    where = []
+    if "v" in o and "F" in o:
+        if o.index("F") < o.index("v"):
+            where.append("before")
+        if "vF" in o and "Fv" in o[o.index("vF"):]:
+            where.append("between")
+        if o.rindex("F") > o.rindex("v"):
+            where.append("after")
+    return len(tv.positional), mask, where
 
 
 def argv_of(chain):
@@ -668,6 +722,13 @@ def random_tasks(rng):
             if k == "req" and len([1 for _, kk in params if kk == "req"]) >= 2:
                 k = "str"
             params.append([p, k])
+        if rng.random() < 0.3:
+            # positional-heavy signature: 3, 4 or 5 REQUIRED parameters (plus at most two others)
+            nreq = rng.choice([3, 3, 4, 4, 5])
+            names = rng.sample(POSVOCAB, nreq)
+            others = [pk for pk in params if pk[1] != "req" and pk[0] not in names][:2]
+            params = [[n, "req"] for n in names] + others
+            rng.shuffle(params)
         tasks.append({"name": tn, "aliases": ([tn + "al"] if rng.random() < 0.3 else []) + (["z"] if rng.random() < 0.1 and tn == names[0] else []),
                       "auto_short": rng.random() < 0.8, "params": params,
                       "path": rng.choice([[], [], [], [], [], ["ns"], ["ns"], ["ns", "deep"], ["docs"], ["ns", "deep", "er"]]),
@@ -818,6 +879,10 @@ def run(ctx):
         for j in range(per_world):
             names = [cli_name(t) for t in tasks]
             callnames = [rng.choice(names) for _ in range(rng.choice([1, 1, 2, 2, 3, 4]))]
+            heavy = [cli_name(t) for t in tasks if len([1 for _, k in t["params"] if k == "req"]) >= 3]
+            if heavy and rng.random() < 0.7:
+                # a positional-heavy call that is FOLLOWED by a further task
+                callnames = [rng.choice(heavy), rng.choice(names)] + callnames[:1]
             if len(callnames) > 1 and rng.random() < 0.4:
                 callnames[1] = callnames[0]
             chain = []
@@ -840,6 +905,15 @@ def run(ctx):
         nontrivial = chain is not None and any(c["items"] for c in chain)
         out.case({"tasks": case["tasks"], "argv": case["argv"]}, nontrivial)
         if chain is not None:
+            for ci, c in enumerate(chain):
+                n, mask, where = positional_shape(w.views[c["primary"]], c)
+                if n >= 3:
+                    out.hist["positionals:%d by-flag:%s" % (n, mask)] += 1
+                    out.hist["positionals>=3:%s" % ("followed-by-task" if ci + 1 < len(chain) else "last-call")] += 1
+                    for wh in where:
+                        out.hist["positionals>=3:flag-%s-bare" % wh] += 1
+                    if "11" in mask and "0" in mask[mask.index("11"):]:
+                        out.hist["positionals>=3:consecutive-by-flag-then-bare"] += 1
             form_hist(out, chain, w.all_names)
             out.hist["chain_len_%d" % len(chain)] += 1
             if len(chain) > 1 and len(set(c["primary"] for c in chain)) < len(chain):
